@@ -2,7 +2,8 @@
 # seedmatrix.sh [tier] [name...] : every kept seeded change (or only the named ones) against the check of its
 # property; writes / updates seeded/RESULTS.tsv
 tier=${1:-quick}; shift
-cd /verif
+. "${VERIF_ROOT:-/verif}/env.sh"
+cd "$VERIF_ROOT"
 if [ $# -eq 0 ]; then : > seeded/RESULTS.tsv; set -- $(ls seeded | grep -E '^C[0-9]+-'); fi
 for name in "$@"; do
   sd=seeded/$name/; id=${name%%-*}
